@@ -148,6 +148,9 @@ ChainVerdict(d, calls) ==
        THEN "must_fail"                                                  \* build() while a writable field is missing
   ELSE "unspecified"                                                     \* complete but re-ordered / repeated
 
+(* both conversions of every bitenum used by the declaration are const (C15) *)
+EnumApi(d) == UNION {{[m |-> "enum_from:" \o d.enums[k].name, const |-> TRUE], [m |-> "enum_to:" \o d.enums[k].name, const |-> TRUE]}
+                     : k \in 1..Len(d.enums)}
 (* const members that exist only when the builder is offered *)
 BuilderApi(d) == IF BuilderSound(d)
                  THEN {[m |-> "builder", const |-> TRUE], [m |-> "build", const |-> TRUE]}
